@@ -163,9 +163,16 @@ pub fn replay(input: &str, fixfile: Option<&str>, outdir: &str, nm: usize, seed:
                             let mut hh = h.clone();
                             hh.push(l["a"].clone());
                             newtaint.lock().unwrap().push(Value::Array(hh).to_string());
-                            mism.lock().unwrap().push(json!({"fix": fix, "h": h, "a": l["a"], "res": res, "exp_res": l["res"],
-                                "same_res": same_res, "same_post": same_post,
-                                "exp_post": exp, "got_post": post}));
+                            // a broken tree produces mismatches by the ten thousand: all are counted, the details of the first 500 are
+                            // kept and the first 4000 are re-executed as traces for the judgement by TLC
+                            let mut mm = mism.lock().unwrap();
+                            if mm.len() < 500 {
+                                mm.push(json!({"fix": fix, "h": h, "a": l["a"], "res": res, "exp_res": l["res"],
+                                    "same_res": same_res, "same_post": same_post, "exp_post": exp, "got_post": post}));
+                            } else if mm.len() < 4000 {
+                                mm.push(json!({"fix": fix, "h": h, "a": l["a"], "res": res, "exp_res": l["res"],
+                                    "same_res": same_res, "same_post": same_post, "exp_post": "", "got_post": ""}));
+                            }
                         }
                     }
                     {
